@@ -37,8 +37,17 @@ def is_not(n: ast.AST) -> bool:
     return isinstance(n, ast.UnaryOp) and isinstance(n.op, ast.Not)
 
 
+def _unbool(n: ast.expr) -> ast.expr:
+    """`bool(X)` as a condition is X"""
+    while isinstance(n, ast.Call) and isinstance(n.func, ast.Name) and n.func.id == "bool" and len(n.args) == 1 and not n.keywords \
+            and not isinstance(n.args[0], ast.Starred):
+        n = n.args[0]
+    return n
+
+
 def negate(n: ast.expr) -> ast.expr:
     """Logical negation with negations pushed inwards."""
+    n = _unbool(n)
     if is_not(n):
         return n.operand  # type: ignore[attr-defined]
     if isinstance(n, ast.Compare) and len(n.ops) == 1 and type(n.ops[0]) in _FLIP:
@@ -84,10 +93,11 @@ def _literal_seq(n: ast.AST) -> list[ast.expr] | None:
 
 def atoms(n: ast.expr, polarity: bool = True) -> list[ast.expr]:
     """Atomic conditions that all hold given that `n` evaluated to `polarity`."""
+    n = _unbool(n)
     if not polarity:
-        n = negate(n)
+        n = _unbool(negate(n))
     if is_not(n):
-        inner = n.operand  # type: ignore[attr-defined]
+        inner = _unbool(n.operand)  # type: ignore[attr-defined]
         if isinstance(inner, (ast.BoolOp, ast.Compare)) or is_not(inner) or _quantifier(inner) or _literal_seq(inner):
             m = negate(inner)
             if not is_not(m):
